@@ -1,86 +1,108 @@
-#!/usr/bin/env python
-"""
-C19 demo 3: one small packet from a peer puts the local event loop to sleep for
-as long as the peer likes.
+"""C19 demo 3: two node servers in one process (default channel) share every connection.
 
-The packet is an event named 'generate_events' whose *metadata* carries
-'time_left'.  load_event() copies every metadata key that is not an attribute
-of a plain Event onto the new event, so the peer decides the value of
-event.time_left - the attribute every poller (select/poll/epoll/kqueue) uses
-as the timeout of its blocking system call.  The poller's generate_events
-handler takes the fake event for the real one and blocks in select() for
-`time_left` seconds (for ever with -1) in the middle of the dispatcher; no
-timer, task or other event is processed meanwhile and, because the event is
-not a real generate_events instance, fire() from other threads does not wake
-the poller either.
+Each node Server reacts to the `connect` and `read` events of "its" TCPServer by
+channel only.  Two Node(port=...) instances in one process both use the default
+channel 'node', so BOTH Servers create a Protocol for every accepted socket (each
+with its OWN firewalls) and BOTH feed every read into their Protocol:
+  * an event the receive firewall of the server the peer connected to REJECTS is
+    still dispatched - through the other server's Protocol for that socket;
+  * an accepted event is executed twice and answered twice.
+(The other server's get_socks()/send_all() also cover the foreign connection, with its
+own send firewall instead of the one configured for that port.)
 """
-import json
 import socket
 import sys
 import time
 
-from circuits import Component, Event, Manager, Timer
-from circuits.node import Node
-
-BLOCK = 3.0  # seconds the hostile peer wants the victim to sleep (-1: for ever)
+from circuits import Component, Event
+from circuits.node import Node, remote
 
 
-class App(Component):
-    channel = 'node'
-    beats = None
-
-    def heartbeat(self):
-        if self.beats is None:
-            self.beats = []
-        self.beats.append(time.time())
+def freeport():
+    s = socket.socket()
+    s.bind(('127.0.0.1', 0))
+    p = s.getsockname()[1]
+    s.close()
+    return p
 
 
-def loop(m, seconds):
-    """the main loop: tick(0.01) must never block longer than about 10 ms"""
-    longest = 0.0
-    end = time.time() + seconds
+class PeerApp(Component):
+    def init(self):
+        self.calls = []
+
+    def hello(self):
+        self.calls.append('hello')
+        return 'hi'
+
+    def secret(self):
+        self.calls.append('secret')
+        return 'the secret'
+
+
+class ClientApp(Component):
+    def init(self):
+        self.results = []
+
+    def go(self, ev):
+        x = yield self.call(remote(ev, 'peer'))
+        self.results.append((ev.name, x.value))
+
+
+def pump(ms, cond=None, t=5.0):
+    end = time.time() + t
     while time.time() < end:
-        m._running = True
-        t = time.time()
-        m.tick(0.01)
-        longest = max(longest, time.time() - t)
-    return longest
+        for m in ms:
+            m.tick(0.01)
+        if cond is not None and cond():
+            return True
+    return False
 
 
-def main():
-    m = Manager()
-    node = Node(port=0, server_ip='127.0.0.1').register(m)
-    app = App().register(m)
-    Timer(0.1, Event.create('heartbeat'), 'node', persist=True).register(m)
-    loop(m, 0.3)
-
-    peer = socket.create_connection(('127.0.0.1', node.server.port))
-    quiet = loop(m, 1.0)
-    print('before the packet: longest tick %.3f s, %d heartbeats in 1.3 s' % (quiet, len(app.beats or [])))
-
-    hostile = {
-        'id': 0, 'name': 'generate_events', 'args': [], 'kwargs': {},
-        'success': False, 'failure': False, 'notify': False,
-        'channels': ['*'],
-        'meta': {'time_left': BLOCK},
-    }
-    peer.sendall(json.dumps(hostile).encode('ascii') + b'~~~')
-    print('peer sent %d bytes: %s' % (len(json.dumps(hostile)) + 3, json.dumps(hostile)))
-
-    app.beats = []
-    t0 = time.time()
-    longest = loop(m, BLOCK + 1.5)
-    gaps = [b - a for a, b in zip([t0] + app.beats, app.beats)]
-    print('after the packet : longest tick %.3f s, longest pause between heartbeats (0.1 s timer) %.3f s'
-          % (longest, max(gaps) if gaps else float('inf')))
-
-    if longest > BLOCK / 2:
-        print('VIOLATION: metadata sent by the peer stopped the local event loop for %.1f s '
-              '(time_left=%r; -1 would block until some socket becomes readable)' % (longest, BLOCK))
-        return 1
-    print('ok: the loop kept running')
-    return 0
+seen_by_firewall = []
 
 
-if __name__ == '__main__':
-    sys.exit(main())
+def public_receive_firewall(event, sock):
+    seen_by_firewall.append(event.name)
+    return event.name != 'secret'
+
+
+port_public, port_internal = freeport(), freeport()
+peer = PeerApp()
+public = Node(port=port_public, server_ip='127.0.0.1',
+              receive_event_firewall=public_receive_firewall).register(peer)
+internal = Node(port=port_internal, server_ip='127.0.0.1').register(peer)  # no firewall, nobody connects to it
+
+app = ClientApp()
+node = Node().register(app)
+node.add('peer', '127.0.0.1', port_public, reconnect_delay=0)
+ms = [peer, app]
+for m in ms:
+    m._running = True
+assert pump(ms, lambda: len(public.server.get_socks()) == 1), 'could not connect over loopback'
+pump(ms, t=0.2)
+
+print('connections known to the public server  :', len(public.server.get_socks()))
+print('connections known to the internal server:', len(internal.server.get_socks()), '(nobody connected to its port)')
+
+app.fire(Event.create('go', Event.create('secret')))
+pump(ms, lambda: len(app.results) == 1, t=3)
+pump(ms, t=0.3)
+app.fire(Event.create('go', Event.create('hello')))
+pump(ms, lambda: len(app.results) == 2, t=3)
+pump(ms, t=0.3)
+
+print('receive firewall of the public server was asked about:', seen_by_firewall)
+print('handlers executed on the peer:', peer.calls)
+print('results at the client        :', app.results)
+
+bad = []
+if 'secret' in peer.calls:
+    bad.append("'secret' was rejected by the receive firewall of the connection it came in on, yet it was dispatched")
+if peer.calls.count('hello') != 1:
+    bad.append("'hello' was executed %d times instead of once" % peer.calls.count('hello'))
+if bad:
+    for b in bad:
+        print('VIOLATION:', b)
+    sys.exit(1)
+print('ok')
+sys.exit(0)
